@@ -99,6 +99,18 @@ def _t(v, bits):
 
 
 def run_class(item):
+    if len(item) > 3 and item[3] is not None:
+        # same class at another (page-edge) address: PC0 is a module global of the executor, switched for this item only
+        saved = X.PC0
+        X.PC0 = item[3]
+        try:
+            r = run_class(item[:3])
+        finally:
+            X.PC0 = saved
+        r["key"] += f"@{item[3]:05X}"
+        for c in r["cex"]:
+            c["key"] += "|page-edge"
+        return r
     tier, (prefix, opcode, n, b2) = item[:2]
     domain = item[2] if len(item) > 2 else "documented"
     X.setup()
@@ -108,7 +120,7 @@ def run_class(item):
     res = {"key": key, "py_paths": 0, "rs_paths": 0, "pairs": 0, "obligations": 0, "discharged": 0, "unknown": 0, "cex": [], "solver_time": 0.0,
            "samples": [], "inconclusive": [], "mnemonics": {}, "rs_steps": 0}
     try:
-        paths, stats = X.run_paths(prefix, opcode, n, b2_set=b2, N=N, temps="zero", named_limit=0, render=(domain == "documented"), max_paths=4000,
+        paths, stats = X.run_paths(prefix, opcode, n, b2_set=b2, N=N, temps="zero", named_limit=0, render=(domain in ("documented", "edge")), max_paths=4000,
                                    deadline_s=120 if tier == "quick" else 600)
     except core.PathLimit as e:
         res["inconclusive"].append(f"python: {e}")
@@ -132,17 +144,22 @@ def run_class(item):
         # nothing; the cores are compared there by the thorough tier's "full domain" pass.
         from engines.pysym.machine import MemoryRangeError
 
-        if domain == "documented":
+        if domain in ("documented", "edge"):
             if isinstance(v.get("exc"), MemoryRangeError):
                 res["out_of_domain"] = res.get("out_of_domain", 0) + 1
                 continue
             from specs.isa import SpecUnsupported
 
+            import specs.isa as _isa
+
+            _isa.PAGE_ASSUME = domain != "edge"  # page-edge classes: the spec's "same page" assumption is exactly what is lifted
             try:
                 specs = X.build_specs(v, N, opcode)
             except SpecUnsupported:
                 res["out_of_domain"] = res.get("out_of_domain", 0) + 1
                 continue
+            finally:
+                _isa.PAGE_ASSUME = True
             dom = [z3.Or(*[z3.And(*st_.assume) if st_.assume else z3.BoolVal(True) for st_ in specs])]
             for (kind_, a_, val_) in v["log"]:
                 if not isinstance(a_, int):
@@ -227,7 +244,7 @@ def run_class(item):
                 payload = {"property": "C06", "kind": "parity", "key": f"{mn}|{'+'.join(failed)}", "pc": X.PC0, "code": cb, "len": n,
                            "regs": {k: ev(core.term_of(val, 24)) for k, val in v["pre"].items()}, "mem_default": default,
                            "mem": {str(a): b for a, b in entries.items()}, "failed": failed, "mnemonic": mn}
-                pfx = ("pre" if prefix is not None else "nopre") + ("" if domain == "documented" else "/full-domain")
+                pfx = ("pre" if prefix is not None else "nopre") + ("/full-domain" if domain == "full" else "")
                 kinds = "+".join(sorted(set(failed)))
                 res["cex"].append({"key": f"{pfx}|{mn} {opcode:02X}|{kinds}", "summary": f"{key} {mn}: {kinds}", "payload": payload})
             elif unknown:
@@ -249,6 +266,11 @@ def main(tier):
     b = build.ensure_built()
     rep = common.Report("C06")
     items = [(tier, c) for c in classes(tier)]
+    # control-flow opcodes once more at the end of a 64 KiB page (instruction ends at / return address lies beyond the boundary)
+    for c in classes(tier):
+        if c[0] is None and c[1] <= 0x1F:
+            for pc in ((0x3FFFD, 0x3FFFE) if tier == "quick" else (0x3FFFC, 0x3FFFD, 0x3FFFE, 0x3FFFF, 0x0FFFE)):
+                items.append((tier, c, "edge", pc))
     # parse once in the parent so forked workers share the module image
     build.image()
     results = common.pool_map(run_class, items)
@@ -290,7 +312,7 @@ def main(tier):
         "functions_encoded": ["Rust (LLVM IR, release profile): sc62015_core::llama::eval::LlamaExecutor::execute and everything it reaches (decode_with_prefix, read/write operands, LlamaState::get_reg/set_reg, hashbrown/SipHash for the register map)",
                               "Python: Emulator.execute_instruction and every lift (as C04)"],
         "rust_build": {"cache_key": b["key"], "rebuilt": b["built"], "build_s": round(b["build_s"], 1), "profile": "release (wrapping arithmetic), opt-level 1, fat LTO, panic=abort"},
-        "bounds": {"encodings": "valid encodings only (Python decoder accepts)", "I": f"1..{2 if tier == 'quick' else 3}", "pc": hex(X.PC0),
+        "bounds": {"encodings": "valid encodings only (Python decoder accepts)", "I": f"1..{2 if tier == 'quick' else 3}", "pc": hex(X.PC0) + "; opcodes 00-1F additionally at page-edge addresses 0x3FFFD/0x3FFFE (thorough: 0x3FFFC-0x3FFFF, 0x0FFFE)",
                    "prefixes": "none + 3 (quick) / none + all 15 (thorough)", "named_imem": "operand bytes are not IMEM register names (rendering is not involved)"},
         "known_findings_hit": {k: len(v) for k, v in rep.known_hits.items()},
     }
